@@ -1,4 +1,7 @@
 -- Root of the library: everything `lake build` must check.
 import StepupModel.Proto
+import StepupModel.Props.C09
 import StepupModel.Props.C13
+import StepupModel.Props.C16
 import StepupModel.Props.C18
+import StepupModel.Props.C20
